@@ -10,6 +10,7 @@ CONSTANTS
   KindSet = {"good"}
   KwargsSet = {"empty"}
   UseKeySet = {FALSE}
+  NFiles = 1
   MaxRecs = 1
   Threads = 1
 CONSTRAINT Emit
